@@ -1,12 +1,12 @@
 /-!
 # C12 — child processes: descriptor re-mapping in the forked child, and SIGCHLD reaping
 
-Model of `/repo/src/unix/process.c`:
-* `uv__process_child_init` (287-434): error-pipe move (320-335), first pass (341-357),
-  second pass (359-397) on a kernel descriptor table with lowest-free-fd semantics.
+Model of `/repo/src/unix/process.c` (line numbers as of commit fb7448d):
+* `uv__process_child_init` (291-438): error-pipe move (324-339), first pass (345-361),
+  second pass (363-401) on a kernel descriptor table with lowest-free-fd semantics.
 * `uv__wait_children` (101-177): WNOHANG poll of every tracked child, pending list, exit_cb.
 * the status decode macros `WIFEXITED/WEXITSTATUS/WIFSIGNALED/WTERMSIG` (glibc bits/waitstatus.h).
-* `uv__spawn_and_init_child` + `uv_spawn` error exits (877-980, 983-1110) at decision level.
+* `uv__spawn_and_init_child` + `uv_spawn` error exits (881-984, 987-1114) at decision level.
 
 Kernel outcomes that are *inputs*: which fds are open initially, waitpid results.
 Not modelled: EMFILE / ENFILE failures of `fcntl`/`open` (the table is unbounded), file status
@@ -59,7 +59,7 @@ def dup2 (t : Tab) (old new : Nat) : Tab × Option Nat :=
   | none => (t, none)
   | some e => if old = new then (t, some new) else (t.set new (some ⟨e.file, false⟩), some new)
 
-/-- `open("/dev/null", O_RDONLY | O_RDWR)` (no O_CLOEXEC, process.c:370) -/
+/-- `open("/dev/null", O_RDONLY | O_RDWR)` (no O_CLOEXEC, process.c:374) -/
 def openNull (t : Tab) (rdwr : Bool) : Tab × Nat :=
   (t.set (t.lowestFree 0) (some ⟨.devNull rdwr, false⟩), t.lowestFree 0)
 
@@ -71,12 +71,12 @@ def setCloexec (t : Tab) (fd : Nat) (b : Bool) : Tab × Bool :=
   | none => (t, false)
   | some e => (t.set fd (some ⟨e.file, b⟩), true)
 
-/-- process.c:320-335: the error pipe is moved above the stdio range.  `none` = failure
+/-- process.c:324-339: the error pipe is moved above the stdio range.  `none` = failure
 (reported on the *old* error fd). -/
 def moveErr (t : Tab) (cnt efd : Nat) : Tab × Option Nat :=
   if efd < cnt then dupfd t efd cnt true else (t, some efd)
 
-/-- process.c:341-357: sources numbered below their slot are duplicated to a close-on-exec
+/-- process.c:345-361: sources numbered below their slot are duplicated to a close-on-exec
 temporary ≥ stdio_count; `pipes[fd][1]` is updated in place (the returned list). `none` = failure. -/
 def pass1 (cnt : Nat) (t : Tab) : Nat → List Int → Tab × Option (List Int)
   | _, [] => (t, some [])
@@ -93,21 +93,21 @@ def pass1 (cnt : Nat) (t : Tab) : Nat → List Int → Tab × Option (List Int)
         | (t', some r) => (t', some ((n : Int) :: r))
         | (t', none) => (t', none)
 
-/-- one iteration of the second loop, process.c:359-397.  `false` = failure. -/
+/-- one iteration of the second loop, process.c:363-401.  `false` = failure. -/
 def step2 (cnt : Nat) (t : Tab) (fd : Nat) (u : Int) : Tab × Bool :=
   if u < 0 then
-    if fd ≥ 3 then (t, true)                       -- 364-365 continue
+    if fd ≥ 3 then (t, true)                       -- 368-369 continue
     else
-      let t1 := close t fd                          -- 369
-      let o := openNull t1 (fd != 0)                -- 370; close_fd = use_fd = o.2
-      let d := if fd = o.2 then (o.1, some fd) else dup2 o.1 o.2 fd   -- 378-387
+      let t1 := close t fd                          -- 373
+      let o := openNull t1 (fd != 0)                -- 374; close_fd = use_fd = o.2
+      let d := if fd = o.2 then (o.1, some fd) else dup2 o.1 o.2 fd   -- 382-391
       match d.2 with
-      | none => (d.1, false)                        -- 389-390
-      | some _ => if o.2 ≥ cnt then (close d.1 o.2, true) else (d.1, true)  -- 395-396
+      | none => (d.1, false)                        -- 393-394
+      | some _ => if o.2 ≥ cnt then (close d.1 o.2, true) else (d.1, true)  -- 399-400
   else
-    if fd = u.toNat then setCloexec t u.toNat false -- 378-384 (close_fd = -1)
+    if fd = u.toNat then setCloexec t u.toNat false -- 382-388 (close_fd = -1)
     else
-      match dup2 t u.toNat fd with                  -- 386
+      match dup2 t u.toNat fd with                  -- 390
       | (t1, none) => (t1, false)
       | (t1, some _) => (t1, true)
 
@@ -210,7 +210,7 @@ def waitChildren (res : Nat → WaitRes) (tracked : List Nat) : List Nat × List
 
 /-! ## parent side of `uv_spawn` after `fork` (decision level) -/
 
-/-- what the parent's `read(signal_pipe[0])` returns, process.c:954-975 -/
+/-- what the parent's `read(signal_pipe[0])` returns, process.c:958-979 -/
 inductive PipeRead where
   | eof                 -- the child reached exec: the close-on-exec write end was closed
   | errno (e : Nat)     -- the child wrote `-e` and `_exit(127)`ed
@@ -219,8 +219,8 @@ inductive PipeRead where
 
 structure SpawnOut where
   ret : Int             -- return value of `uv_spawn`
-  reapedSync : Bool     -- blocking `waitpid(pid, &status, 0)` done inside uv_spawn (962 / 969)
-  activated : Bool      -- handle queued in `process_handles` and started (1053-1074)
+  reapedSync : Bool     -- blocking `waitpid(pid, &status, 0)` done inside uv_spawn (966 / 973)
+  activated : Bool      -- handle queued in `process_handles` and started (1057-1078)
   deriving DecidableEq, Repr
 
 def spawnParent : PipeRead → SpawnOut
@@ -250,8 +250,8 @@ structure PS where
   okIds : List Nat := []                   -- ghost: children whose spawn succeeded
 
 inductive Op where
-  | spawnOk                    -- fork+exec succeeded: child `nspawned`, handle activated (1053-1074)
-  | spawnFail                  -- exec failed: child reaped synchronously (960-965), not activated
+  | spawnOk                    -- fork+exec succeeded: child `nspawned`, handle activated (1057-1078)
+  | spawnFail                  -- exec failed: child reaped synchronously (964-969), not activated
   | childExit (id status : Nat) -- kernel: a running child terminates with this status word
   | sigchld                    -- the loop runs `uv__chld`
   | closeHandle (id : Nat)     -- `uv_close` on the process handle (`uv__process_close`)
@@ -268,7 +268,7 @@ def stepP (s : PS) : Op → PS
              nspawned := s.nspawned + 1, tracked := s.tracked ++ [s.nspawned],
              okIds := s.okIds ++ [s.nspawned] }
   | .spawnFail =>
-    -- the child wrote errno and `_exit(127)`ed; the parent's blocking waitpid (962) reaped it
+    -- the child wrote errno and `_exit(127)`ed; the parent's blocking waitpid (966) reaped it
     { s with nspawned := s.nspawned + 1 }
   | .childExit id st =>
     if s.kern id = .running then
